@@ -71,15 +71,17 @@ CMDS = [
     ("cmd", "sync"), ("cmd", "sync", "-B", "1"), ("cmd", "sync", "-S", "1", "-B", "1"), ("cmd", "sync", "-F"),
     ("cmd", "sync", "-R"), ("cmd", "sync", "-h"), ("cmd", "sync", "--test-kill-after-sync"),
     ("cmd", "sync", "--test-force-autosave-at", "1", "--test-kill-after-sync"),
-    ("cmd", "sync", "--test-force-autosave-at", "2"),
     ("cmd", "scrub", "-p", "full"), ("cmd", "fix"), ("cmd", "fix", "-f", "a"), ("cmd", "fix", "-d", "d2"),
     ("cmd", "rehash"), ("cmd", "touch"), ("cmd", "sync", "-N"),
-    ("cmd", "fix", "-S", "0", "-B", "1"), ("cmd", "fix", "-S", "1", "-B", "2"), ("cmd", "check", "-B", "1"),
+    ("cmd", "fix", "-S", "0", "-B", "1"),
     ("cmd", "sync", "--test-run", "rm {root}/d1/a"),
     ("cmd", "sync", "--test-run", "touch -d @1500000000 {root}/d2/b"),
     ("cmd", "sync", "-E"),
+    # a read error on a data disk in the middle of a sync (first read of a d1 file / second read of a d2 file)
+    ("cmd-eio", "d1/*", 0, "sync"), ("cmd-eio", "d2/*", 1, "sync"),
 ]
-CMDS_THOROUGH = [("cmd", "fix", "-e"), ("cmd", "fix", "-m"), ("cmd", "scrub", "-p", "new"), ("cmd", "check"),
+CMDS_THOROUGH = [("cmd", "sync", "--test-force-autosave-at", "2"), ("cmd", "fix", "-S", "1", "-B", "2"), ("cmd", "check", "-B", "1"),
+                 ("cmd", "fix", "-e"), ("cmd", "fix", "-m"), ("cmd", "scrub", "-p", "new"), ("cmd", "check"),
                  ("cmd", "sync", "-h", "-B", "1"), ("cmd", "sync", "-E", "--test-kill-after-sync"), ("cmd", "sync", "-N", "-B", "1")]
 
 
